@@ -75,3 +75,4 @@ claim("C33", "K24", "Unbounded proof of the interpreter leaves chrInFirstWord / 
 claim("C03", "K21 K04 K02", "Proof (loop-free regions, complete in all operands) that the verdict blocks of CheckCondition::comparison and checkCompareValueOutOfTypeRange only report a value the comparison has for every value of the non-constant operand under C's conversion rules; one recorded finding (signed variable against unsigned constant) is split off and reported as KNOWN-FINDING.", _NOTE)
 claim("C04", "K31", "Proof (loop-free regions) that the threshold decisions of checkTooBigBitwiseShift and checkIntegerOverflow report only where C leaves the operation undefined / the value outside the result type, with the value-flow lookups as arbitrary oracles; the shiftTooManyBitsSigned report is a recorded finding (KNOWN-FINDING). Whether the value is real is outside the claim.", _NOTE)
 claim("C09", "K02 K23", "Unbounded proof that Platform::set establishes the data model the property names for each built-in platform, that the range helpers equal the two's-complement ranges, and that the usual-arithmetic-conversion block of setValueType yields the C11 6.3.1.1/6.3.1.8 result type and signedness for the platform's sizes.", _NOTE)
+claim("C14", "K11 K10", "Unbounded proof that every string the dump writes through ErrorLogger::toxml is XML-safe and made of complete entities; bounded check (every forest over 3 tokens quick / 4 thorough) that the AST edge setters keep parent and operand edges in agreement, and a loop-free proof that createMutualLinks makes bracket links symmetric. The dump writers and cppcheckdata.py are not verified.", _NOTE)
